@@ -12,7 +12,7 @@ L=/opt/veriftools/pyvenv/lib/python3.11/site-packages/scipy.libs
 SDPFLAGS="-L native=$L -C link-arg=-Wl,-rpath,$L -l dylib:+verbatim=libscipy_openblas-6cdc3b4a.so"
 git -C /repo worktree add --detach "$W" HEAD >/dev/null 2>&1 || exit 2
 cp "$D/demo.rs" "$W/tests/seed_demo.rs"
-echo 'include!("/verif/harness/src/blas_shim.rs");' >> "$W/tests/seed_demo.rs"
+grep -v '^//!' /verif/harness/src/blas_shim.rs >> "$W/tests/seed_demo.rs"
 cd "$W"
 echo "--- demo WITHOUT patch (must pass)"
 RUSTFLAGS="$SDPFLAGS" timeout 1200 cargo test --offline --features sdp,blas-src,lapack-src --test seed_demo 2>&1 | grep -E "^test result|panicked|error(\[|:)" | head -5
